@@ -499,4 +499,124 @@ pub fn _hb_ot_shape_normalize(
 #[allow(unused_imports, dead_code, missing_docs)]
 pub mod verif_hooks {
     use super::*;
+    use crate::hb::ot_shaper::{hb_ot_shaper_t, DEFAULT_SHAPER};
+
+    // the default shaper with each of the five normalization preferences
+    static SHAPERS: [hb_ot_shaper_t; 5] = [
+        hb_ot_shaper_t {
+            normalization_preference: HB_OT_SHAPE_NORMALIZATION_MODE_NONE,
+            ..DEFAULT_SHAPER
+        },
+        hb_ot_shaper_t {
+            normalization_preference: HB_OT_SHAPE_NORMALIZATION_MODE_DECOMPOSED,
+            ..DEFAULT_SHAPER
+        },
+        hb_ot_shaper_t {
+            normalization_preference: HB_OT_SHAPE_NORMALIZATION_MODE_COMPOSED_DIACRITICS,
+            ..DEFAULT_SHAPER
+        },
+        hb_ot_shaper_t {
+            normalization_preference:
+                HB_OT_SHAPE_NORMALIZATION_MODE_COMPOSED_DIACRITICS_NO_SHORT_CIRCUIT,
+            ..DEFAULT_SHAPER
+        },
+        hb_ot_shaper_t {
+            normalization_preference: HB_OT_SHAPE_NORMALIZATION_MODE_AUTO,
+            ..DEFAULT_SHAPER
+        },
+    ];
+
+    pub const MAX_COMBINING_MARKS_: usize = MAX_COMBINING_MARKS;
+
+    /// HAS_NON_ASCII, HAS_DEFAULT_IGNORABLES, HAS_SPACE_FALLBACK, HAS_CGJ, glyph_flag::DEFINED
+    pub const FLAG_CONSTS: [u32; 5] = [
+        HB_BUFFER_SCRATCH_FLAG_HAS_NON_ASCII,
+        HB_BUFFER_SCRATCH_FLAG_HAS_DEFAULT_IGNORABLES,
+        HB_BUFFER_SCRATCH_FLAG_HAS_SPACE_FALLBACK,
+        HB_BUFFER_SCRATCH_FLAG_HAS_CGJ,
+        glyph_flag::DEFINED,
+    ];
+
+    /// One buffer record as the normalizer sees it.
+    #[derive(Clone, Copy, Debug)]
+    pub struct Rec {
+        pub cp: u32,
+        pub mask: u32,
+        pub cluster: u32,
+        /// `glyph_index()` (var1)
+        pub gidx: u32,
+        /// `unicode_props()`
+        pub props: u16,
+        pub is_mark: bool,
+        pub is_space: bool,
+    }
+
+    pub struct Outcome {
+        pub recs: alloc::vec::Vec<Rec>,
+        pub scratch_flags: u32,
+        pub successful: bool,
+    }
+
+    /// Runs `_hb_ot_shape_normalize` of the default shaper with normalization preference `mode`
+    /// (0..=4) on a bare buffer holding `text` = (code point, cluster, mask); unicode props are
+    /// initialised per character with `init_unicode_props`, exactly like the first statement of
+    /// `set_unicode_props`. `level` is the cluster level, `invisible` the buffer's invisible glyph.
+    pub fn normalize(
+        face: &hb_font_t,
+        mode: usize,
+        level: u32,
+        invisible: Option<u16>,
+        text: &[(u32, u32, u32)],
+    ) -> Outcome {
+        let mut plan = hb_ot_shape_plan_t::new(
+            face,
+            crate::hb::Direction::LeftToRight,
+            None,
+            None,
+            &[],
+        );
+        plan.shaper = &SHAPERS[mode];
+
+        let mut buffer = hb_buffer_t::new();
+        for &(cp, cluster, mask) in text {
+            buffer.info.push(hb_glyph_info_t {
+                glyph_id: cp,
+                mask,
+                cluster,
+                var1: 0,
+                var2: 0,
+            });
+            buffer.pos.push(GlyphPosition::default());
+        }
+        buffer.len = text.len();
+        buffer.cluster_level = level;
+        buffer.invisible = invisible.map(ttf_parser::GlyphId);
+        buffer.enter();
+
+        let mut flags = buffer.scratch_flags;
+        for info in &mut buffer.info {
+            info.init_unicode_props(&mut flags);
+        }
+        buffer.scratch_flags = flags;
+
+        _hb_ot_shape_normalize(&plan, &mut buffer, face);
+
+        let recs = buffer.info[..buffer.len]
+            .iter()
+            .map(|i| Rec {
+                cp: i.glyph_id,
+                mask: i.mask,
+                cluster: i.cluster,
+                gidx: i.var1,
+                props: i.unicode_props(),
+                is_mark: _hb_glyph_info_is_unicode_mark(i),
+                is_space: _hb_glyph_info_is_unicode_space(i),
+            })
+            .collect();
+        Outcome {
+            recs,
+            scratch_flags: buffer.scratch_flags,
+            successful: buffer.successful,
+        }
+    }
 }
